@@ -93,7 +93,7 @@ def round_trip(scfg, kind, report):
 
 
 def check_graph(g, fam, acc: Acc, opts):
-    for payload in ("basic", "bytecode"):
+    for payload in opts.get("payloads", ("basic", "bytecode")):
         for hist in opts["histories"]:
             scfg = make_scfg(g, payload)
             seen = set()
@@ -136,6 +136,16 @@ def _work(args):
     for fam, g in unit_graphs(unit):
         acc.counters[f"graphs[{fam}]"] += 1
         check_graph(g, fam, acc, opts)
+        if 2 <= len(g) <= opts.get("relabel_max", 4):
+            # the same graph under other block names / insertion orders: the reader rebuilds graphs from sorted work lists
+            from ..families import labelings, set_labeling
+            try:
+                for lab in labelings(len(g), "few"):
+                    set_labeling(lab)
+                    acc.counters[f"graphs[{fam}~relabelled]"] += 1
+                    check_graph(g, fam + "~", acc, {"histories": histories(1), "payloads": ("basic",)})
+            finally:
+                set_labeling(None)
     return acc
 
 
